@@ -117,3 +117,20 @@ LEVEL_TEXT += _ADDR5D
 _ADDR5E = ' R03.7: the same comparison for `tuple[int, *tuple[date, ...]]` written with the builtin star syntax (a types.GenericAlias with __unpacked__, which reaches the registries un-normalised when it is a codec shape).'
 EXPLANATION += _ADDR5E
 LEVEL_TEXT += _ADDR5E
+
+
+_run_before_r6b = run
+
+
+def run(repo, rep, tier):  # noqa: F811 -- round-6 remedies (core/round6.py)
+    _run_before_r6b(repo, rep, tier)
+    if getattr(rep, "borrowed", False):
+        return
+    from ..core import round6 as _r6b
+    _r6b.format_dialect_tables(repo, rep, "R03.8")
+    _r6b.element_positions_nullable(repo, rep, "R05.15")
+
+
+_ADDR6C = " R03.8: a whole-entry pass_through in a format dialect table is allowed only for types the format's decoder returns natively (bytes for msgpack; date/time/datetime for TOML). Borrowed: R05.15."
+EXPLANATION += _ADDR6C
+LEVEL_TEXT += _ADDR6C
